@@ -17,6 +17,7 @@ class Ctx:
         self._escape = None
         self._cfg = {}
         self._rd = {}
+        self.consulted = set()      # anchor functions a rule asked for (reported in the evidence)
 
     @property
     def escape(self):
@@ -26,9 +27,12 @@ class Ctx:
         return self._escape
 
     def fn(self, qualname):
-        return self.p.fn(qualname)
+        f = self.p.fn(qualname)
+        self.consulted.add(f.qualname)
+        return f
 
     def cfg(self, f):
+        self.consulted.add(f.qualname)
         c = self._cfg.get(f.qualname)
         if c is None:
             c = CFG(f.node, f.qualname)
